@@ -205,7 +205,9 @@ impl Sched {
         self.wait_for_baton(s, tid);
     }
 
-    fn wait_for_baton(&self, mut s: std::sync::MutexGuard<'_, State>, tid: usize) {
+    fn wait_for_baton<'a>(&'a self, mut s: std::sync::MutexGuard<'a, State>, tid: usize) {
+        // the timed waits below belong to the harness: real clock, not the thread's virtual one
+        let _real = crate::seams::RealClock::new();
         let mut waited = Duration::ZERO;
         let mut last_step = s.step;
         let mut holder_asleep = 0u32;
@@ -230,14 +232,27 @@ impl Sched {
             } else {
                 waited += t0.elapsed();
                 // Is the baton holder asleep in the kernel (e.g. on a futex) instead of computing?
-                let asleep = match s.current {
-                    Some(h) if h != tid && s.os_tids[h] != 0 => {
-                        os_thread_state(s.os_tids[h]) == Some('S')
-                    }
-                    _ => false,
+                // The /proc read happens without the scheduler's lock: a holder that merely
+                // waits for this lock (to pass a scheduling point) must not look blocked.
+                let holder = match s.current {
+                    Some(h) if h != tid && s.os_tids[h] != 0 => Some((h, s.os_tids[h])),
+                    _ => None,
                 };
+                let step_seen = s.step;
+                drop(s);
+                let asleep = holder
+                    .map(|(_, os_tid)| os_thread_state(os_tid) == Some('S'))
+                    .unwrap_or(false);
+                s = self.lock();
+                if s.step != step_seen || s.current != holder.map(|(h, _)| h) || s.current == Some(tid) {
+                    // things moved while we looked
+                    last_step = s.step;
+                    waited = Duration::ZERO;
+                    holder_asleep = 0;
+                    continue;
+                }
                 holder_asleep = if asleep { holder_asleep + 1 } else { 0 };
-                if (waited > HANDOFF || holder_asleep >= 3)
+                if (waited > HANDOFF || holder_asleep >= 6)
                     && s.current != Some(tid)
                     && s.status[tid] == Status::Runnable
                     && s.started == self.n
